@@ -240,6 +240,17 @@ def mu_check(prop, tier, replay, extra_rule="", extra_assume=(), env=None, post=
     run.assumptions += BASE_ASSUME + list(extra_assume)
     fam = family if family is not None else muconfigs.family(prop, tier)
     results = run_family(run, exe, prop, fam, env=e, cap_tours=cap_tours)
+    # oracle-only exploration of richer programs under random and priority-based schedules
+    nruns = 400 if tier == "quick" else 20000
+    for i, conf in enumerate(muconfigs.RANDOM.get(prop, [])):
+        res = run_harness_env(exe, ["random", str(nruns), str(seed() + i), muconf.init_line(conf), REPLAYS], e)
+        run.add("evaluations", nruns); run.add("distinct_nontrivial", res["stats"].get("nontrivial", 0))
+        run.cov.setdefault("random", []).append({"program": i, "threads": len(conf["progs"]), "runs": nruns, "violations": len(res["viols"])})
+        for v in res["viols"]:
+            if v[0] in (ORACLE_OF.get(prop, set()) | ALWAYS):
+                run.violation("%s|%s|random %d" % (v[0], v[1], i), v[4], v[5])
+            else:
+                run.note("oracle of another property fired in random program %d: %s %s: %s" % (i, v[0], v[1], v[5][:160]))
     if cap_tours:
         run.cov["tours_capped_at"] = cap_tours
         run.cov["exhaustive"] = False
